@@ -149,7 +149,8 @@ def check_impute(case):
     from synrbl.SynRuleImputer.synthetic_rule_constraint import RuleConstraint
     res = CaseResult()
     entry = {"reactants": case["reactants"], "products": case["products"], "Diff_formula": dict(case["vector"]),
-             "Unbalance": case["side"], "id": "0"}
+             "Unbalance": case["side"], "id": "0",
+             "input_reaction": case["reactants"] + ">>" + case["products"]}   # pipeline rows carry it as well
     signal.signal(signal.SIGALRM, _alarm)
     signal.alarm(5)
     try:
@@ -250,7 +251,20 @@ def impute_entry(draw):
     mol = gen.molecule(True, 15, False)
     r = ".".join(draw(st.lists(mol, min_size=1, max_size=2)))
     p = ".".join(draw(st.lists(mol, min_size=1, max_size=2)))
-    return dict(v, reactants=r, products=p, side=draw(st.sampled_from(["Products", "Products", "Reactants"])))
+    side = draw(st.sampled_from(["Products", "Products", "Reactants"]))
+    if draw(st.integers(0, 4)) == 0:
+        # the product side as given already holds a dihalogen and the missing part is halogen again: the given
+        # molecule is the input's business, a further one would be an addition
+        x1, x2 = draw(st.sampled_from(sorted(HALOGENS))), draw(st.sampled_from(sorted(HALOGENS)))
+        vec = {}
+        for x in (x1, x2):
+            vec[x] = vec.get(x, 0) + 1
+        if draw(st.booleans()):
+            vec["H"] = draw(st.integers(1, 2))
+        v = dict(v, vector=vec)
+        p = ".".join(draw(st.permutations([p, x1 + x2])))
+        side = "Products"
+    return dict(v, reactants=r, products=p, side=side)
 
 
 def halogen_reactions():
@@ -260,6 +274,11 @@ def halogen_reactions():
     for r1, r2 in itertools.product(rs[:3], rs[:3]):
         for x1, x2 in itertools.product(xs, xs):
             out.append("%s%s.%s%s>>%s%s" % (r1, x1, r2, x2, r1, r2 if r2 != "c1ccccc1" else "c2ccccc2"))
+    # several equivalents, with one dihalogen / interhalogen molecule already given among the products
+    for r1 in rs:
+        rr = r1 + (r1 if r1 != "c1ccccc1" else "c2ccccc2")
+        for x1, x2 in itertools.product(xs, xs):
+            out.append("%s%s.%s%s.%s%s.%s%s>>%s.%s.%s%s" % (r1, x1, r1, x2, r1, x1, r1, x2, rr, rr, x1, x2))
     out += ["CCl.Cl>>C", "CBr.BrBr>>C", "ClCCl>>C=C", "C(Cl)Cl>>C", "ClC(Cl)Cl>>CCl", "BrCCBr>>C=C", "ICCI>>C=C",
             "FC(F)F>>CF", "ClCCBr>>C=C", "ClCCI>>C=C", "BrCCI>>C=C"]
     return [r for r in out if oracle.balanced(r) is not None]
